@@ -36,7 +36,11 @@ class ev(Event):
     pass
 
 
-def make_harness(n_ext, max_events, n_handlers, max_depth, flushes, allow_stop, allow_reflush=False, sym_handler_prio=True):
+class MyErr(Exception):
+    pass
+
+
+def make_harness(n_ext, max_events, n_handlers, max_depth, flushes, allow_stop, allow_reflush=False, sym_handler_prio=True, allow_raise=False):
     def harness(g):
         log = []          # (event_name, handler_idx, flush_idx)
         events = {}       # name -> dict(prio, seq, depth, fired_flush, obj)
@@ -77,6 +81,10 @@ def make_harness(n_ext, max_events, n_handlers, max_depth, flushes, allow_stop, 
                 acts.append('fire2')
             if allow_stop:
                 acts.append('stop')
+            if allow_raise:
+                acts.append('raise')
+                if allow_stop:
+                    acts.append('stop_raise')
             if allow_reflush and state['reflush'] < 1 and rec['depth'] == 0:
                 acts.append('fire_reflush')
             a = g.pick('act_%s_h%d' % (name, j), acts) if len(acts) > 1 else 'none'
@@ -92,10 +100,12 @@ def make_harness(n_ext, max_events, n_handlers, max_depth, flushes, allow_stop, 
                     state['depth'] = 0      # a recursive flush is a deliberate nested dispatch
                     self.flush()
                     state['depth'] = d
-            elif a == 'stop':
+            elif a in ('stop', 'stop_raise'):
                 event.stop()
                 state['stoppedby'][name] = j
             state['depth'] -= 1
+            if a in ('raise', 'stop_raise'):
+                raise MyErr(name)
 
         ns = {}
         for j in range(n_handlers):
@@ -106,7 +116,8 @@ def make_harness(n_ext, max_events, n_handlers, max_depth, flushes, allow_stop, 
                 return handler('ev', priority=hprio[j])(h)
             ns['h%d' % j] = mk(j)
         def on_exc(self, etype, evalue, tb, handler=None, fevent=None):
-            state.setdefault('exc', []).append('%s: %s' % (getattr(etype, '__name__', etype), evalue))
+            if etype is not MyErr:
+                state.setdefault('exc', []).append('%s: %s' % (getattr(etype, '__name__', etype), evalue))
         on_exc.__name__ = 'on_exc'
         ns['on_exc'] = handler('exception', channel='*')(on_exc)
         Comp = type('Comp', (BaseComponent,), ns)
@@ -230,6 +241,7 @@ def canaries():
             "(event, channels) = heappop(self._priority_queue)[2]\n        dispatcher(event, channels, self._flush_batch - 1)\n        self._flush_batch -= 1"), None),
         ('handlers-ascending', 'handler-order-stop', lambda: mutate(M.Manager, '_dispatcher', 'reverse=True', 'reverse=False'), ['handler-order', 'stop-suppressed-higher']),
         ('stop-ignored', 'handler-order-stop', lambda: mutate(M.Manager, '_dispatcher', 'if event.stopped:', 'if event.stopped and False:'), ['stop-ignored']),
+        ('stop-ignored-after-error', 'handler-stop-raise', lambda: mutate(M.Manager, '_dispatcher', 'if event.stopped:', 'if event.stopped and err is None:'), ['stop-ignored']),
         ('fire-dispatches-into-running-pass', 'event-order', lambda: mutate(
             M._EventQueue, 'append', 'self._queue.append((priority, self._counter, (event, channel)))',
             'self._queue.append((priority, self._counter, (event, channel)))\n    if self._flush_batch > 0 and priority < 0:\n        heappush(self._priority_queue, self._queue.pop()); self._flush_batch += 1'), None),
@@ -243,7 +255,10 @@ def parts(tier):
                  bounds={'external_events_first_pass': 3, 'max_events': 4, 'handlers': 1, 'nesting_depth': 2, 'flushes': 3},
                  encoded=ENC[:-1], clauses=['pass-batch', 'event-order', 'event-dispatched-twice', 'reentrant-dispatch'], budget_s=70),
             Part('handler-order-stop', make_harness(n_ext=1, max_events=2, n_handlers=3, max_depth=1, flushes=2, allow_stop=True),
-                 bounds={'external_events_first_pass': 1, 'max_events': 2, 'handlers': 3, 'nesting_depth': 1, 'flushes': 2},
+                 bounds={'external_events_first_pass': 1, 'max_events': 2, 'handlers': 3, 'nesting_depth': 1, 'flushes': 2, 'actions': 'none/fire1/fire2/stop'},
+                 encoded=ENC, clauses=['handler-order', 'stop-ignored', 'stop-suppressed-higher', 'handler-missing'], budget_s=70),
+            Part('handler-stop-raise', make_harness(n_ext=1, max_events=1, n_handlers=3, max_depth=0, flushes=1, allow_stop=True, allow_raise=True),
+                 bounds={'external_events_first_pass': 1, 'max_events': 1, 'handlers': 3, 'nesting_depth': 0, 'flushes': 1, 'actions': 'none/stop/raise/stop+raise'},
                  encoded=ENC, clauses=['handler-order', 'stop-ignored', 'stop-suppressed-higher', 'handler-missing'], budget_s=70),
             Part('recursive-flush', make_harness(n_ext=2, max_events=4, n_handlers=1, max_depth=2, flushes=2, allow_stop=False, allow_reflush=True),
                  bounds={'external_events_first_pass': 2, 'max_events': 4, 'handlers': 1, 'nesting_depth': 2, 'flushes': 2, 'recursive_flush': 1},
@@ -255,6 +270,9 @@ def parts(tier):
              encoded=ENC[:-1], budget_s=900),
         Part('handler-order-stop', make_harness(n_ext=2, max_events=4, n_handlers=4, max_depth=1, flushes=2, allow_stop=True),
              bounds={'external_events_first_pass': 2, 'max_events': 4, 'handlers': 4, 'nesting_depth': 1, 'flushes': 2},
+             encoded=ENC, budget_s=900),
+        Part('handler-stop-raise', make_harness(n_ext=2, max_events=3, n_handlers=4, max_depth=0, flushes=1, allow_stop=True, allow_raise=True),
+             bounds={'external_events_first_pass': 2, 'max_events': 3, 'handlers': 4, 'nesting_depth': 0, 'flushes': 1, 'actions': 'none/stop/raise/stop+raise'},
              encoded=ENC, budget_s=900),
         Part('recursive-flush', make_harness(n_ext=3, max_events=5, n_handlers=1, max_depth=2, flushes=2, allow_stop=False, allow_reflush=True),
              bounds={'external_events_first_pass': 3, 'max_events': 5, 'handlers': 1, 'nesting_depth': 2, 'flushes': 2, 'recursive_flush': 1},
